@@ -5,6 +5,7 @@ package main
 
 import (
 	"fmt"
+	"go/ast"
 	"go/constant"
 	"go/token"
 	"go/types"
@@ -757,4 +758,176 @@ func errFlowsOn(ev ssa.Value) bool {
 		}
 	}
 	return false
+}
+
+// ---------------------------------------------------------------- ERRSWALLOW
+
+// ruleErrSwallow: a module call's error that is only compared with nil, and
+// whose non-nil edge reaches nothing but returns that report success (nil
+// error constant), is provably lost: the caller is told the operation worked.
+// Errors that are carried on (stored, returned, wrapped, folded into a flag)
+// and edges from which a failure or undetermined return is reachable are
+// outside the rule.
+func ruleErrSwallow(w *World, r *Report, in map[*ssa.Function]bool) {
+	r.Rule("ERRSWALLOW", "a function with a NAMED error result does not test a callee's error in a variable that shadows that result (x, err := g() inside a block) while every return reachable from the non-nil edge returns the never-assigned named result: the failure is reported as success.  A swallowed error without the shadowing shape is listed as undecided (it can be by design); errors that are stored, returned, wrapped or folded into a flag, and edges that can still reach a failure return, are not judged")
+	for _, f := range w.ModFuncs {
+		if f.Synthetic != "" || f.Blocks == nil || errResultIndex(f) < 0 {
+			continue
+		}
+		can := w.IsCanary(f)
+		if !can && in != nil && !in[f] {
+			continue
+		}
+		name := w.FuncName(f)
+		ord := map[string]int{}
+		instrs(f, func(ins ssa.Instruction) {
+			c, ok := ins.(*ssa.Call)
+			if !ok {
+				return
+			}
+			g := calleeOf(c)
+			if g == nil || !w.InModule(g) {
+				return
+			}
+			ei := errResultIndex(g)
+			if ei < 0 {
+				return
+			}
+			var ev ssa.Value = c
+			if g.Signature.Results().Len() > 1 {
+				e := extractOf(c, ei)
+				if e == nil {
+					return // discarded with _: the explicit discard is ERRUSED's business
+				}
+				ev = e
+			}
+			if ev.Referrers() == nil || errFlowsOn(ev) {
+				return
+			}
+			gname := calleeDisplay(w, g)
+			ord[gname]++
+			key := fmt.Sprintf("ERRSWALLOW / %s / call#%d of %s", name, ord[gname], gname)
+			tests, lost := 0, 0
+			for _, ref := range *ev.Referrers() {
+				b, ok := ref.(*ssa.BinOp)
+				if !ok || (b.Op != token.NEQ && b.Op != token.EQL) || !(isNilConst(b.X) || isNilConst(b.Y)) {
+					continue
+				}
+				for _, blk := range f.Blocks {
+					t, fl, i := ifSuccs(blk)
+					if i == nil || i.Cond != ssa.Value(b) {
+						continue
+					}
+					nonNil := t
+					if b.Op == token.EQL {
+						nonNil = fl
+					}
+					tests++
+					reach := reachableFrom(nonNil, nil)
+					nsucc, nother := 0, 0
+					for _, ret := range returnsOf(f) {
+						if !reach[ret.Block()] {
+							continue
+						}
+						if classifyReturn(f, ret) == retSuccess {
+							nsucc++
+						} else {
+							nother++
+						}
+					}
+					// a panic on the edge is not a success report either
+					for bb := range reach {
+						if len(bb.Instrs) > 0 {
+							if _, isPanic := bb.Instrs[len(bb.Instrs)-1].(*ssa.Panic); isPanic {
+								nother++
+							}
+						}
+					}
+					if nsucc > 0 && nother == 0 {
+						lost++
+					}
+				}
+			}
+			if tests == 0 {
+				return
+			}
+			// the same callee is called elsewhere in the function with its error passed on: a
+			// validation pass may have made this failure impossible (a stated belief, not decided)
+			if lost > 0 {
+				other := false
+				instrs(f, func(in2 ssa.Instruction) {
+					c2, ok := in2.(*ssa.Call)
+					if !ok || c2 == c || calleeOf(c2) != g {
+						return
+					}
+					var ev2 ssa.Value = c2
+					if g.Signature.Results().Len() > 1 {
+						if e := extractOf(c2, ei); e != nil {
+							ev2 = e
+						} else {
+							return
+						}
+					}
+					if ev2.Referrers() != nil && errFlowsOn(ev2) {
+						other = true
+					}
+				})
+				if other {
+					r.Add(Obligation{Rule: "ERRSWALLOW", Key: key, Pos: w.Pos(c.Pos()), Status: Undecided, Detail: "the error of " + gname + " is swallowed here, but another call of it in this function passes its error on (possibly a validation pass): not decided -- " + shortInstr(c), Canary: can})
+					return
+				}
+			}
+			if lost > 0 {
+				if sh := shadowedErrResult(w, f); sh == "" {
+					r.Add(Obligation{Rule: "ERRSWALLOW", Key: key, Pos: w.Pos(c.Pos()), Status: Undecided, Detail: "the error of " + gname + " is only compared with nil and every return reachable from its non-nil edge reports success; whether that is intended (an invalid element answered without an error) cannot be read off the code -- " + shortInstr(c), Canary: can})
+					return
+				}
+			}
+			if lost > 0 {
+				r.Add(Obligation{Rule: "ERRSWALLOW", Key: key, Pos: w.Pos(c.Pos()), Status: Violated, Detail: "the error of " + gname + " is kept in a variable that shadows the named error result " + shadowedErrResult(w, f) + ", is only compared with nil, and every return reachable from its non-nil edge returns the never-assigned result (nil): the failure is lost -- " + shortInstr(c), Canary: can})
+			} else {
+				r.Add(Obligation{Rule: "ERRSWALLOW", Key: key, Pos: w.Pos(c.Pos()), Status: Discharged, Detail: "non-nil edge reaches a failure return", Canary: can})
+			}
+		})
+	}
+}
+
+// shadowedErrResult: f has a named error result that an inner declaration of
+// the same name and type shadows; returns "name (declared at pos)" or "".
+func shadowedErrResult(w *World, f *ssa.Function) string {
+	fd, ok := f.Syntax().(*ast.FuncDecl)
+	if !ok || fd.Body == nil || f.Pkg == nil {
+		return ""
+	}
+	var info *types.Info
+	for _, p := range w.Pkgs {
+		if p.Types == f.Pkg.Pkg {
+			info = p.TypesInfo
+		}
+	}
+	if info == nil {
+		return ""
+	}
+	ei := errResultIndex(f)
+	if ei < 0 {
+		return ""
+	}
+	res := f.Signature.Results().At(ei)
+	if res.Name() == "" || res.Name() == "_" {
+		return ""
+	}
+	out := ""
+	ast.Inspect(fd.Body, func(n ast.Node) bool {
+		id, ok := n.(*ast.Ident)
+		if !ok || id.Name != res.Name() {
+			return true
+		}
+		if obj := info.Defs[id]; obj != nil && obj != types.Object(res) {
+			if v, isVar := obj.(*types.Var); isVar && isErrorType(v.Type()) {
+				out = res.Name() + " (redeclared at " + w.Pos(id.Pos()) + ")"
+			}
+		}
+		return true
+	})
+	return out
 }
